@@ -217,3 +217,12 @@ fn dumped_to_value(j: &J) -> Result<Value, String> {
         _ => dec_value(j),
     }
 }
+
+/// `{{ in | <chain> | __dump }}` with the given globals; the structural result.
+pub fn eval_chain(chain: &str, globals: &liquid::Object) -> Result<Value, String> {
+    let src = format!("{{{{ in | {chain} | __dump }}}}");
+    let t = PARSER.with(|p| p.parse(&src)).map_err(|e| e.to_string())?;
+    let text = t.render(globals).map_err(|e| e.to_string())?;
+    let j: J = serde_json::from_str(&text).map_err(|e| e.to_string())?;
+    dumped_to_value(&j)
+}
